@@ -94,6 +94,7 @@ type Engine struct {
 	syncMaps  map[*Cell]*MapObj
 	hashers   map[*Cell]*hashTranscript
 	opaquePubKeys bool
+	registered map[string][2]Value // p2p.RegisterHandler registrations: key -> (request factory, handler) as interface values
 	noops     map[string]bool
 	light     *Solver
 }
